@@ -18,9 +18,11 @@ CUT_ASSUMPTION = ('content cuts for protocol-only checks: tree.BuildTree -> empt
 def run(ctx, pid, configs, explanation, bounds):
     """configs: list of (name, cfg, queries, contract prefixes)"""
     quick = ctx.tier == 'quick'
-    for name, cfg, queries, contracts in configs:
+    for entry in configs:
+        name, cfg, queries, contracts = entry[:4]
+        o = entry[4] if len(entry) > 4 else {}
         res, t = ts.run_protocol(ctx, driver, name, cfg, queries, contracts=contracts, timeout_s=900 if quick else 3300,
-                                 confirm_depth=24 if quick else 40)
+                                 confirm_depth=o.get('confirm_depth', 24 if quick else 40), cuts=o.get('cuts', True))
         ts.post_protocol(ctx, driver, res)
         bounds.setdefault('transition_relations', []).append({'config': res['cfg'], 'state_leaves': res['leaves'], 'dag_nodes': res['size'],
                                                               'ssa_instructions': res['instrs'], 'extract_s': res['extract_s'], 'cuts': res['cuts']})
